@@ -171,18 +171,24 @@ def record_cli_case(cid, corpora, srcfmt, destfmt, split, filt, mods, seed, orig
                     evs = fam_io.run_reader(mods, destfmt, os.path.join(tmp, fn), dest_enc, params)
                     case['events'].append({'a': 'selfread', 'src': ci + 1, 'events': evs})
             if with_back and not dirmode:
-                args2 = ['transform', 'dest.out', 'back.out', '--src-format', destfmt, '--dest-format', srcfmt,
-                         '--src-enc', dest_enc, '--dest-enc', 'utf-8', '--src-opts', 'quiet']
-                rc2, out2, err2 = treetools(args2, tmp)
-                ev2 = {'a': 'back', 'src': 1, 'rc': rc2, 'name': 'back.out', 'files': [], 'stderr': err2[-300:] if rc2 else ''}
-                if rc2 == 0 and os.path.exists(os.path.join(tmp, 'back.out')):
-                    if srcfmt == 'tigerxml':
-                        with open(os.path.join(tmp, 'back.out'), 'rb') as fb:
-                            rec2 = fam_io.tiger_record(fb.read())
-                    else:
-                        rec2 = file_records(srcfmt, [], read_text(os.path.join(tmp, 'back.out'), 'utf-8'))
-                    ev2['files'].append({'name': 'back.out', 'rec': rec2})
-                case['events'].append(ev2)
+                # second step: back into the source format (A -> B -> A) and on into a third one (A -> B -> C)
+                others = [f_ for f_ in ('export', 'tigerxml', 'discobrackets', 'brackets', 'terminals')
+                          if f_ not in (srcfmt, destfmt)]
+                for tgt, outname in ((srcfmt, 'back.out'), (rnd.choice(others), 'chain.out')):
+                    args2 = ['transform', 'dest.out', outname, '--src-format', destfmt, '--dest-format', tgt,
+                             '--src-enc', dest_enc, '--dest-enc', 'utf-8', '--src-opts', 'quiet',
+                             '--counting', str(rnd.choice([1, 2, 100]))]
+                    rc2, out2, err2 = treetools(args2, tmp)
+                    ev2 = {'a': 'back', 'src': 1, 'rc': rc2, 'name': outname, 'fmt': tgt, 'files': [],
+                           'stderr': err2[-300:] if rc2 else ''}
+                    if rc2 == 0 and os.path.exists(os.path.join(tmp, outname)):
+                        if tgt == 'tigerxml':
+                            with open(os.path.join(tmp, outname), 'rb') as fb:
+                                rec2 = fam_io.tiger_record(fb.read())
+                        else:
+                            rec2 = file_records(tgt, [], read_text(os.path.join(tmp, outname), 'utf-8'))
+                        ev2['files'].append({'name': outname, 'rec': rec2})
+                    case['events'].append(ev2)
     finally:
         shutil.rmtree(tmp, ignore_errors=True)
     return case
